@@ -86,7 +86,7 @@ theorem pulses_product (circular : Bool) (N : ℕ) (enc : String × Int → ℕ)
         some (.ok (some ((groups.map (·.1)).zip (chans.map some)))) ∧
       chans.length = groups.length ∧
       (SepAll tol (chans.map (·.1)) → ∃ (T : List Rat) (rows : List (List Rat)),
-        (∀ zl : Bool, fullCoeffsV zl tol (chans.map fun c => Chan.arr c.1 c.2) = .ok (T, rows)) ∧
+        (∀ zl w : Bool, fullCoeffsVW zl w tol (chans.map fun c => Chan.arr c.1 c.2) = .ok (T, rows)) ∧
         ordProdL (runAnalytically 0 ((groups.map (·.1)).map (labelHam circular N enc)) (slices T rows)) =
           ordProd ((schedOrder isQ.length sch).map fun k => ws.getD k 1)) := by
   have hdz : ∀ i ∈ isQ.map (toC enc), (i.duration != 0) = true := by
@@ -193,7 +193,22 @@ theorem pulses_product (circular : Bool) (N : ℕ) (enc : String × Int → ℕ)
         obtain ⟨l, hl, rfl⟩ := List.mem_map.mp hc
         exact (hspec l hl).2.2.1
       rw [fullCoeffsV_discrete zl tol chans hl, fullCoeffsV_discrete true tol chans hl]
-    refine ⟨_, _, fun zl => (hnorm zl).trans hfull, ?_⟩
+    -- both shapes of the advance step of `_fill_coeff` (fixes/C14-7) return the same rows under `SepAll`
+    have hshape : ∀ zl w : Bool, fullCoeffsVW zl w tol (chans.map fun c => Chan.arr c.1 c.2) =
+        fullCoeffsV zl tol (chans.map fun c => Chan.arr c.1 c.2) := by
+      intro zl w
+      exact fullCoeffsVW_eq zl w tol chans htol (by simpa [hchansdef] using hlsne)
+        (by
+          intro c hc
+          obtain ⟨l, hl, rfl⟩ := List.mem_map.mp hc
+          obtain ⟨h1, h2, _, h4, _⟩ := hspec l hl
+          exact ⟨h2, h1, h4⟩)
+        (by
+          intro c hc
+          obtain ⟨l, hl, rfl⟩ := List.mem_map.mp hc
+          exact Or.inl (hspec l hl).2.2.1)
+        hsep
+    refine ⟨_, _, fun zl w => (hshape zl w).trans ((hnorm zl).trans hfull), ?_⟩
     have hcomp := schedJ_compatible circular N enc henc isQ st0 σ hσ hsorted hpos hdisj
     have key := channels_sliceProd (labelHam circular N enc) thr Gen.concatSrc.cat.padTol hthr hτ pm final ms hms ls
       hlsne hnd J hJl hch hcomp
